@@ -121,3 +121,73 @@ Theorem blind_swap_refuted :
   p_entry s = 2 /\ lvl (p_entry s) = 1 /\
   p_entry (prun lvl true {| p_entry := 0; p_threads := [(1, TIdle); (2, TIdle)] |} [0; 1; 0; 1; 1; 1]) = 1.
 Proof. repeat split. Qed.
+
+(* ---- (A, assembled) linearizability of membership changes ----
+   A concurrent execution is a history of invocations, critical sections and responses; only a critical section touches
+   the id map (fact membership_under_shard_lock), so executing the history applies [cs] at the HCs events.  The order of
+   the critical sections is a linearization: it contains every call that took effect exactly once, respects real time,
+   and the outcomes and the final set of the concurrent execution are those of the sequential set run in that order. *)
+Definition cs_order (h : list hev) : list nat := flat_map (fun e => match e with HCs k => [k] | _ => [] end) h.
+Fixpoint exec_hist (op : nat -> mop) (h : list hev) (s : mstate) : mstate * list (nat * bool) :=
+  match h with
+  | [] => (s, [])
+  | HCs k :: t => let '(s', b) := cs s (op k) in let '(sf, rs) := exec_hist op t s' in (sf, (k, b) :: rs)
+  | _ :: t => exec_hist op t s
+  end.
+Fixpoint idx (k : nat) (l : list nat) (i : nat) : option nat :=
+  match l with [] => None | x :: t => if Nat.eqb x k then Some i else idx k t (S i) end.
+
+Lemma exec_hist_seq op h : forall s,
+  exec_hist op h s = (fst (run_cs s (map op (cs_order h))), combine (cs_order h) (snd (run_cs s (map op (cs_order h))))).
+Proof.
+  induction h as [|e t IH]; intros s; [reflexivity|]. destruct e as [k|k|k]; simpl; try apply IH.
+  destruct (cs s (op k)) as [s' b]. rewrite IH. destruct (run_cs s' (map op (cs_order t))) as [sf bs]. reflexivity.
+Qed.
+Lemma cs_order_in h k : In k (cs_order h) <-> In (HCs k) h.
+Proof.
+  unfold cs_order. rewrite in_flat_map. split.
+  - intros (e & He & Hk). destruct e as [j|j|j]; simpl in Hk; try tauto. destruct Hk as [<-|[]]. exact He.
+  - intros H. exists (HCs k). split; simpl; auto.
+Qed.
+Lemma cs_order_nodup h : NoDup h -> NoDup (cs_order h).
+Proof.
+  induction h as [|e t IH]; intros ND; [constructor|]. inversion ND as [|? ? Hn ND']; subst. destruct e as [k|k|k]; simpl; auto.
+  constructor; auto. rewrite cs_order_in. exact Hn.
+Qed.
+(* positions of critical sections in the history and positions in the linearization agree on the order *)
+Lemma idx_of_pos h a b : forall i j ca cb, pos (is_cs a) h i = Some ca -> pos (is_cs b) h i = Some cb -> ca < cb ->
+  exists xa xb, idx a (cs_order h) j = Some xa /\ idx b (cs_order h) j = Some xb /\ xa < xb.
+Proof.
+  induction h as [|e t IH]; intros i j ca cb Pa Pb Lt; [discriminate|]. simpl in Pa, Pb.
+  assert (Mono : forall k t0 i0 c, pos (is_cs k) t0 i0 = Some c -> i0 <= c).
+  { intros k t0. induction t0 as [|x t0 IH0]; intros i0 c H; [discriminate|]. simpl in H. destruct (is_cs k x); [injection H as <-; lia|]. apply IH0 in H. lia. }
+  assert (Found : forall k t0 i0 c j0, pos (is_cs k) t0 i0 = Some c -> exists x, idx k (cs_order t0) j0 = Some x /\ j0 <= x).
+  { intros k t0. induction t0 as [|x t0 IH0]; intros i0 c j0 H; [discriminate|]. simpl in H. destruct x as [m|m|m]; simpl in *; try (eapply IH0; eauto).
+    destruct (Nat.eqb_spec m k) as [->|Hne]; [exists j0; split; auto|]. destruct (IH0 _ _ (S j0) H) as (x & Hx & Lx). exists x. split; auto. lia. }
+  destruct e as [m|m|m]; simpl in *; try (eapply IH; eauto).
+  destruct (Nat.eqb_spec m a) as [->|Hna].
+  - injection Pa as <-. destruct (Nat.eqb_spec a b) as [->|Hnb]; [injection Pb as <-; lia|].
+    destruct (Found _ _ _ _ (S j) Pb) as (x & Hx & Lx). exists j, x. cbn [idx]. rewrite ?Nat.eqb_refl. destruct (Nat.eqb_spec a b); [congruence|]. repeat split; auto.
+  - destruct (Nat.eqb_spec m b) as [->|Hnb]; [injection Pb as <-; apply Mono in Pa; lia|]. eapply IH; eauto.
+Qed.
+
+Theorem membership_linearizable op h s :
+  NoDup h -> (forall k, In (HCs k) h -> call_ok h k) ->
+  let lin := cs_order h in
+  (* every call that took effect appears once *)
+  NoDup lin /\ (forall k, In k lin <-> In (HCs k) h) /\
+  (* real time: a call that returned before another was invoked comes first *)
+  (forall a b ra ib, In a lin -> In b lin -> pos (is_ret a) h 0 = Some ra -> pos (is_inv b) h 0 = Some ib -> ra < ib ->
+     exists xa xb, idx a lin 0 = Some xa /\ idx b lin 0 = Some xb /\ xa < xb) /\
+  (* outcomes and final set are those of the sequential set run in that order *)
+  exec_hist op h s = (fst (run_cs s (map op lin)), combine lin (snd (run_cs s (map op lin)))) /\
+  (m_ok s -> m_ok (fst (exec_hist op h s))).
+Proof.
+  intros ND OK lin. split; [apply cs_order_nodup; auto|]. split; [intros k; apply cs_order_in|]. split; [|split].
+  - intros a b ra ib Ha Hb Ra Ib Lt. apply cs_order_in in Ha, Hb. pose proof (OK a Ha) as Ca. pose proof (OK b Hb) as Cb.
+    destruct Ca as (ia & ca & ra' & Hia & Hca & Hra & L1 & L2). destruct Cb as (ib' & cb & rb & Hib & Hcb & Hrb & L3 & L4).
+    assert (ca < cb) by (rewrite Hra in Ra; rewrite Hib in Ib; inversion Ra; inversion Ib; subst; lia).
+    apply (idx_of_pos h a b 0 0 ca cb); auto.
+  - apply exec_hist_seq.
+  - intros M. rewrite exec_hist_seq. cbn [fst]. apply count_matches. exact M.
+Qed.
